@@ -23,7 +23,7 @@ type D struct {
 	// Deep renders calls to single-block side-effect-free functions of the module
 	// as the expression they return (wrappers and accessors become transparent).
 	Deep bool
-	P *Prog
+	P    *Prog
 	// PhiVal, when non-nil, resolves a phi to the edge taken on the current
 	// path (used by the path enumerator).
 	PhiVal func(*ssa.Phi) ssa.Value
